@@ -1,7 +1,10 @@
 (* C18 -- borrowed strings are slices of the input; undecoded content is not copied.  In the model a
    borrowed string is an offset pair; every such pair in a parsed document is a valid slice of the input
    (start <= end <= len, both on char boundaries), the only 'static strings are those of the xml
-   namespace, and the fast paths keep text / CDATA / attribute values borrowed.
+   namespace, and the fast paths keep text / CDATA / attribute values borrowed.  Whole documents on the fragment of
+   Spec/Cst.v (parse_render_storage): every Text node and every attribute value is stored Borrowed with exactly the
+   span where it is written, and every name (tag, attribute, PI target, PI value, comment text) is the slice of its
+   written occurrence (shapes c / attr_spans c, CstRangeDefs.v).
    Statements are pinned here (copied verbatim from the proof files by tools/pin_props.py);
    each is re-proved by `exact` and followed by Print Assumptions. *)
 From Coq Require Import Ascii String.
@@ -9,7 +12,8 @@ From Coq Require Import List NArith Bool PeanoNat Sorted.
 Import ListNotations.
 From RX Require Import Generated.
 From RX.Model Require Import Base CharClass Stream Tokenizer Doc Builder Parse Api.
-From RX.Proofs Require Import BorrowLocal BorrowTokenizer BorrowParse TextMerge.
+From RX.Spec Require Cst.
+From RX.Proofs Require Import BorrowLocal BorrowTokenizer BorrowParse TextMerge CstRangeDefs CstRangeMain.
 Open Scope N_scope.
 
 (* ---- Proofs/BorrowLocal.v ---- *)
@@ -85,3 +89,19 @@ Theorem C18_single_fragment_storage :
     nd_kind nd = KText (match t with CowBorrowed s => Borrowed (SIn s) | CowOwned bs => Owned bs end).
 Proof. exact single_fragment_storage. Qed.
 Print Assumptions C18_single_fragment_storage.
+
+(* ---- Proofs/CstRangeMain.v ---- *)
+Theorem C18_parse_render_storage :
+  forall (c : Cst.doc) (opt : options) d,
+  Cst.wf_doc c = true ->
+  N.of_nat (length (Cst.sem c)) < nodes_limit opt ->
+  N.of_nat (length (Cst.render c)) <= u32_max ->
+  parse (Cst.render c) opt = Ok d ->
+  (* every node holds exactly the slices of its written occurrence; texts are Borrowed *)
+  Forall2 stored_as (map nd_kind (tl (d_nodes d))) (shapes c) /\
+  (* every attribute: the local name is the slice of the written name, the value is Borrowed
+     with exactly the slice between the quotes *)
+  map (fun a => (ad_local a, ad_value a)) (d_attrs d) =
+  map (fun s => (slice_of (as_qname s), Borrowed (SIn (slice_of (as_value s))))) (attr_spans c).
+Proof. exact parse_render_storage. Qed.
+Print Assumptions C18_parse_render_storage.
